@@ -231,6 +231,43 @@ def read_ndjson(path):
         return [json.loads(x) for x in f if x.strip()]
 
 
+class Hang(Exception):
+    """A call into the library did not return (the harness watchdog stopped the run, exit status 3)."""
+    def __init__(self, failure):
+        Exception.__init__(self, failure["sig"])
+        self.failure = failure
+
+
+def hang_failure(ctx, outdir, how, tabfile=None):
+    path = os.path.join(outdir, "hang.ndjson")
+    if not os.path.exists(path):
+        return None
+    hist = read_ndjson(path)
+    if not hist:
+        return None
+    op = hist[0].get("op") or ("behaviour" if "steps" in hist[0] else "call")
+    return dict(kind=how, reason="call-did-not-return", event=hist[0], history=hist, sig="%s/call-did-not-return" % op)
+
+
+def finish_hang(ctx, failure):
+    """Confirm a hang by running the same history / row again in a fresh process; only then it is a violation."""
+    h = hashlib.sha1(failure["sig"].encode()).hexdigest()[:10]
+    inp = os.path.join(ctx.dir, "hang-%s.in.ndjson" % h)
+    with open(inp, "w") as f:
+        for e in failure["history"]:
+            f.write(json.dumps(e) + "\n")
+    env = {"VERIF_HANG_S": "30"}
+    if failure["kind"] == "hang-table":
+        rc, o = sh([BIN, "table", ctx.pid, "-in", inp, "-out", inp + ".out", "-tier", ctx.tier, "-seed", str(ctx.seed)], timeout=600, env=env)
+    else:
+        rc, o = sh([BIN, "replay", ctx.pid, "-in", inp, "-out", inp + ".out"], timeout=600, env=env)
+    if rc != 3:
+        raise Broken("a call did not return during the run (%s) but the same input returned on replay (rc=%d)" % (failure["sig"], rc))
+    ctx.failures.append(failure)
+    return finish(ctx, "exploration", rule="the run was stopped by the harness watchdog: a call into the library did not return within the time limit; "
+                                            "confirmed by executing the same input again in a fresh process")
+
+
 def gen_traces(ctx, shards=8, name="trace", extra=None):
     out = ctx.sub(name)
     cmd = [BIN, "gen", ctx.pid, "-tier", ctx.tier, "-seed", str(ctx.seed), "-out", out, "-shards", str(shards)]
@@ -238,6 +275,10 @@ def gen_traces(ctx, shards=8, name="trace", extra=None):
         cmd += extra
     t = time.time()
     rc, o = sh(cmd, timeout=3600)
+    if rc == 3:
+        hf = hang_failure(ctx, out, "hang")
+        if hf:
+            raise Hang(hf)
     if rc != 0:
         raise Broken("trace generation failed rc=%d:\n%s" % (rc, o[-3000:]))
     summ = json.load(open(os.path.join(out, "summary.json")))
@@ -310,6 +351,10 @@ def table_compare(ctx, tabfile, name="table", sigfn=None, as_behaviours=False):
     out = os.path.join(ctx.dir, name + ".report.json")
     t = time.time()
     rc, o = sh([BIN, "table", ctx.pid, "-in", tabfile, "-out", out, "-tier", ctx.tier, "-seed", str(ctx.seed)], timeout=3600)
+    if rc == 3:
+        hf = hang_failure(ctx, os.path.dirname(out), "hang-table")
+        if hf:
+            raise Hang(hf)
     if rc != 0:
         raise Broken("table comparison failed rc=%d:\n%s" % (rc, o[-3000:]))
     rep = json.load(open(out))
